@@ -415,6 +415,7 @@ var Prop = &fw.Prop{
 		"(none, empty, width 8/16/32/64, and odd ones: 0, 33, 300, 2^32+64, 2^64-1); integers from the extremes of every width (0, ±1, ±2^7.., ±2^31, 2^32, ±2^63, 2^64-1) and random bit patterns; " +
 		"strings/bytes incl. empty, 0x1D, quotes, control and multi-byte characters; decimals at precision 0-18 (and a bad-precision stream); float32 bit patterns incl. ±0, subnormals, max, ±Inf, NaN; " +
 		"a malformed stream (mixed lists, nil members, unsupported oneof members) and native typed values mutated around the real conversion result; both API versions (v2, v3) on every line; " +
+		"one case in 8 (quick) also sends the value through the real Set handler, transaction/proposal/configuration controllers and stores, records the document the plugin validated and reads it back with Get in PROTO, JSON and JSON_IETF encoding; " +
 		"plus exhaustive enumeration of the extremes × widths, decimals around 0 and ±10^p, and all bytes/string leaf-lists up to 3 members over a universe with empty and 0x1D members. " +
 		"Non-trivial = a boundary value, a width above 32, or a leaf-list with an empty member; distinct = distinct script.",
 	Quick: 3000, Thorough: 120000,
